@@ -159,6 +159,20 @@ CHECKS["C20"] = dict(level=MC, design="DESIGN.md section 6, C20",
          "dictionaries, list of identities) and compared after every step; leaving the return-cache context restores the "
          "caller's CFG object with the final edges also when the body raises, and reports modification/replacement.")
 
+CHECKS["C19"] = dict(level=MC, design="DESIGN.md section 6, C19",
+    note="Bounds: one or two deleted symbols plus a bystander present everywhere; the deleted symbol is mentioned by all, none "
+         "or exactly one of the tables (the library handles tables independently), 5 expression-use shapes (incl. first/second "
+         "operand of SymAddrAddr), force flags and a repeated request; ELF version ids (6 table ids, 3 symbol ids) are z3 "
+         "integers so that sharing and the position of the base definition are decided by the solver; PE import/export "
+         "lists. Serialisation witness-level. Trusted: symx, z3, the expectations written in harness/delsym.py.",
+    technique="symbolic execution of the real delete_symbols code through RewritingContext.delete_symbol/apply (symx) + z3 LIA "
+              "on version ids; enumeration of table memberships through choice points",
+    text="On every path z3 decides that a deleted symbol is out of the module and of every aux table (generic walk), that CFI "
+         "directives naming it carry the null UUID (DW_EH_PE_omit for personality/LSDA), that exactly the expressions using "
+         "it are removed under force and SymbolUsesRemainingError is raised otherwise, that a version definition/requirement "
+         "is dropped exactly when no remaining entry uses its id (base definition kept, empty libraries removed), and that "
+         "everything about a bystander symbol is unchanged; concrete replays round-trip the IR through protobuf.")
+
 NOT_YET = "check not built yet in this round (planned, see DESIGN.md section 6)"
 
 manifest = {
